@@ -457,18 +457,19 @@ func c10ExecFrom(c *fw.Ctx, k int, prefix string, hist []c10Sym) bool {
 
 func c10Run1(c *fw.Ctx) {
 	c10Payloads(c, c.Shard, c.NShards)
+	// nsym = 1: the alphabet without the symbols whose mirror image on the other connection is kept
 	type cfg struct{ k, depth, nsym int }
-	cfgs := []cfg{{2, 3, 0}}
+	cfgs := []cfg{{2, 3, 1}}
 	if c.Thorough() {
-		cfgs = []cfg{{2, 4, 0}, {3, 3, 0}}
+		cfgs = []cfg{{2, 4, 1}, {2, 3, 0}, {3, 3, 0}}
 	}
 	for _, cf := range cfgs {
 		alpha := c10Alphabet(cf.k)
 		if c.Shard == 0 {
-			c.Extra(fmt.Sprintf("depth_bound_completed_k%d", cf.k), int64(cf.depth))
+			c.Extra(fmt.Sprintf("depth_bound_completed_k%d_alphabet%d", cf.k, cf.nsym), int64(cf.depth))
 		}
-		if !c.Thorough() {
-			// quick: drop symbols whose mirror image on the other connection is kept
+		if cf.nsym == 1 {
+			// drop symbols whose mirror image on the other connection is kept
 			var keep []c10Sym
 			for _, s := range alpha {
 				switch s.String() {
@@ -531,7 +532,7 @@ func init() {
 	fw.Register(&fw.Check{
 		ID:    "C10",
 		Level: "model_checking",
-		Rule:  "every history of length 3 with 2 verified controller connections (quick) / length 4 with 2 and length 3 with 3 connections (thorough) over: subscribe, unsubscribe, changing write, non-changing write, a PUT writing two characteristics, application set (changing / non-changing), close, reconnect — on an observable bool of one accessory, an observable int of another, a characteristic without event permission, a second accessory's characteristic with the same instance id as the first, and out-of-range writes that are clamped, and a connection whose read blocks in an application callback and which then resets its socket (it stays registered but dead while later events happen); every history also from the non-initial state 'every connection subscribed and notified once' (one level less deep); real transport over TCP with real pair-verify, fresh system per history. After EVERY event a barrier request on every open connection collects the EVENT messages that arrived; they must equal the reference model (subscription relation × value × open set): exactly one EVENT with the new value per subscribed other connection, none to the originator, to unsubscribed or closed ones, none for unchanged values or characteristics without event permission. A mismatch is re-checked after 20 ms and 500 ms before it counts. states = histories executed, distinct_nontrivial = distinct (event, characteristic, per-connection expected EVENT count pattern) classes The alphabet is also explored (one level less deep) with an application that keeps the state itself (read callback answering from its state, remote-update callback following writes). Plus a depth-1 sweep over every observable readable constructor × its value alphabet (strings that look like protocol lines included): exactly one EVENT carrying exactly the value, and the connection stays in frame.",
+		Rule:  "every history of length 3 with 2 verified controller connections over the mirror-reduced alphabet (quick) / length 4 with 2 connections over the mirror-reduced alphabet, length 3 with 2 and with 3 connections over the full alphabet (thorough) over: subscribe, unsubscribe, changing write, non-changing write, a PUT writing two characteristics, application set (changing / non-changing), close, reconnect — on an observable bool of one accessory, an observable int of another, a characteristic without event permission, a second accessory's characteristic with the same instance id as the first, and out-of-range writes that are clamped, and a connection whose read blocks in an application callback and which then resets its socket (it stays registered but dead while later events happen); every history also from the non-initial state 'every connection subscribed and notified once' (one level less deep); real transport over TCP with real pair-verify, fresh system per history. After EVERY event a barrier request on every open connection collects the EVENT messages that arrived; they must equal the reference model (subscription relation × value × open set): exactly one EVENT with the new value per subscribed other connection, none to the originator, to unsubscribed or closed ones, none for unchanged values or characteristics without event permission. A mismatch is re-checked after 20 ms and 500 ms before it counts. states = histories executed, distinct_nontrivial = distinct (event, characteristic, per-connection expected EVENT count pattern) classes The alphabet is also explored (one level less deep) with an application that keeps the state itself (read callback answering from its state, remote-update callback following writes). Plus a depth-1 sweep over every observable readable constructor × its value alphabet (strings that look like protocol lines included): exactly one EVENT carrying exactly the value, and the connection stays in frame.",
 		Run:   c10Run1,
 		Replay: func(c *fw.Ctx, raw json.RawMessage) {
 			var cas c10Case
